@@ -455,3 +455,227 @@ def register(gen, T):
                    f"def ternMiddleLevel : Nat := {tern_mid}\ndef ternLastLevel : Nat := {tern_last}\n")
         out.append("\nend RsslVerif.Gen.ParseTables\n")
         return "".join(out)
+
+    # ------------------------------------------------------------------------------------------ SyntaxTables
+    # types, declarators, statements: extracted tables (type modifiers, keywords, site constants) and a fingerprint of
+    # every formatter / parser function whose control flow is hand-modelled in Model/FormatFull.lean and
+    # Model/ParseFull.lean.  `Thm.C09.source_fingerprints` compares the fingerprints with the ones the model was
+    # written against: a changed arm breaks that obligation until the model has been re-read against the source.
+    FINGERPRINTED = [
+        # (source file, path of nested fn names)
+        ("formatter/src/formatter.rs", ["format_type"]),
+        ("formatter/src/formatter.rs", ["format_type_id"]),
+        ("formatter/src/formatter.rs", ["format_type_layout"]),
+        ("formatter/src/formatter.rs", ["format_type_modifiers"]),
+        ("formatter/src/formatter.rs", ["format_scoped_identifier"]),
+        ("formatter/src/formatter.rs", ["format_expression_or_type"]),
+        ("formatter/src/formatter.rs", ["format_template_type_args"]),
+        ("formatter/src/formatter.rs", ["format_declarator"]),
+        ("formatter/src/formatter.rs", ["format_init_declarators"]),
+        ("formatter/src/formatter.rs", ["format_init_declarator"]),
+        ("formatter/src/formatter.rs", ["format_initializer"]),
+        ("formatter/src/formatter.rs", ["format_initializer_inner"]),
+        ("formatter/src/formatter.rs", ["format_variable_definition"]),
+        ("formatter/src/formatter.rs", ["format_for_init"]),
+        ("formatter/src/formatter.rs", ["format_statement"]),
+        ("formatter/src/formatter.rs", ["format_attributes"]),
+        ("formatter/src/formatter.rs", ["format_attribute"]),
+        ("formatter/src/formatter.rs", ["format_function"]),
+        ("formatter/src/formatter.rs", ["format_function_param"]),
+        ("formatter/src/formatter.rs", ["format_struct"]),
+        ("formatter/src/formatter.rs", ["format_global_variable"]),
+        ("formatter/src/formatter.rs", ["format_location_annotations"]),
+        ("formatter/src/formatter.rs", ["format_location_annotation"]),
+        ("formatter/src/formatter.rs", ["format_semantic_annotation"]),
+        ("parser/src/parser/errors.rs", ["get_most_relevant_result"]),
+        ("parser/src/parser/errors.rs", ["get_result_significance"]),
+        ("parser/src/parser.rs", ["parse_list_base"]),
+        ("parser/src/parser.rs", ["parse_optional"]),
+        ("parser/src/parser.rs", ["parse_arraydim"]),
+        ("parser/src/parser/expressions.rs", ["expr_leaf"]),
+        ("parser/src/parser/expressions.rs", ["expr_in_paren"]),
+        ("parser/src/parser/expressions.rs", ["parse_expression_or_type_with_or_without_symbols"]),
+        ("parser/src/parser/expressions.rs", ["parse_template_args_req"]),
+        ("parser/src/parser/expressions.rs", ["parse_template_args"]),
+        ("parser/src/parser/expressions.rs", ["expr_p1", "expr_p1_call"]),
+        ("parser/src/parser/expressions.rs", ["expr_p1", "expr_p1_member"]),
+        ("parser/src/parser/expressions.rs", ["expr_p1", "expr_p1_right"]),
+        ("parser/src/parser/expressions.rs", ["expr_p1", "right_side_ops"]),
+        ("parser/src/parser/expressions.rs", ["expr_p2"]),
+        ("parser/src/parser/expressions.rs", ["parse_binary_operations_st"]),
+        ("parser/src/parser/expressions.rs", ["parse_expression_resolve_symbols"]),
+        ("parser/src/parser/types.rs", ["parse_type_layout_internal"]),
+        ("parser/src/parser/types.rs", ["parse_type_internal"]),
+        ("parser/src/parser/types.rs", ["parse_type_modifiers_before"]),
+        ("parser/src/parser/types.rs", ["parse_type_modifiers_after"]),
+        ("parser/src/parser/types.rs", ["parse_type_id_internal"]),
+        ("parser/src/parser/declarations.rs", ["parse_init_declarators"]),
+        ("parser/src/parser/declarations.rs", ["parse_init_declarator"]),
+        ("parser/src/parser/declarations.rs", ["parse_declarator_internal"]),
+        ("parser/src/parser/declarations.rs", ["parse_location_annotation"]),
+        ("parser/src/parser/declarations.rs", ["parse_semantic"]),
+        ("parser/src/parser/statements.rs", ["parse_initializer"]),
+        ("parser/src/parser/statements.rs", ["parse_vardef"]),
+        ("parser/src/parser/statements.rs", ["parse_init_statement"]),
+        ("parser/src/parser/statements.rs", ["parse_attribute_base"]),
+        ("parser/src/parser/statements.rs", ["parse_statement"]),
+        ("parser/src/parser/statements.rs", ["parse_statement_kind"]),
+        ("parser/src/parser/statements.rs", ["statement_block"]),
+        ("parser/src/parser/functions.rs", ["parse_function_param"]),
+        ("parser/src/parser/functions.rs", ["parse_function_definition"]),
+        ("parser/src/parser/structs.rs", ["parse_struct_member"]),
+        ("parser/src/parser/structs.rs", ["parse_struct_entry"]),
+        ("parser/src/parser/structs.rs", ["parse_struct_definition"]),
+    ]
+
+    @gen("SyntaxTables")
+    def syntax_tables():
+        from rustsrc import sha
+        ast_t = T.src("ast/src/ast_types.rs")
+        fm = T.src("formatter/src/formatter.rs")
+        lx = T.src("preprocess/src/lexer.rs")
+        ty = T.src("parser/src/parser/types.rs")
+        out = ["-- GENERATED by tools/translate.py from ast/src/ast_types.rs, formatter/src/formatter.rs, preprocess/src/lexer.rs, "
+               "parser/src/parser/*.rs -- do not edit\n"
+               "import RsslVerif.Gen.ParseTables\nnamespace RsslVerif.Gen.SyntaxTables\n"
+               "open RsslVerif.Gen.FmtTables RsslVerif.Gen.ParseTables\n\n"]
+        # type modifiers (payload-free variants)
+        mods = [v for v, rest in enum_variants(ast_t, "TypeModifier") if rest == ""]
+        out.append("/-- payload-free variants of `ast::TypeModifier` -/\ninductive TypeMod where\n" + "".join(f"  | {v}\n" for v in mods) +
+                   "  deriving DecidableEq, Repr, Inhabited\n\n")
+        out.append("def TypeMod.all : List TypeMod := " + T.lean_list(f".{v}" for v in mods) + "\n\n")
+        out.append("def TypeMod.name : TypeMod → String\n" + "".join(f"  | .{v} => {lean_str(v)}\n" for v in mods) + "\n")
+        out.append("def TypeMod.ofName? (s : String) : Option TypeMod := TypeMod.all.find? (fun o => o.name == s)\n\n")
+        # Debug impl = the printed spelling (format_type_modifiers prints `{:?}`)
+        m = re.search(r'impl std::fmt::Debug for TypeModifier \{', ast_t)
+        if not m:
+            raise ExtractError("Debug impl of TypeModifier not found")
+        dbg = fn_body(ast_t[m.end():], "fmt")
+        _, arms_text, _ = first_match(dbg, r'^self$')
+        spell = {}
+        for pats, guard, result in match_arms(arms_text):
+            for p in pats:
+                pm = re.fullmatch(r'TypeModifier::([A-Za-z]+)', p)
+                rm = re.fullmatch(r'write!\(f, "([a-z_]+)"\)', result)
+                if pm and rm and guard is None:
+                    spell[pm.group(1)] = rm.group(1)
+        if set(spell) != set(mods):
+            raise ExtractError("TypeModifier Debug impl does not spell every payload-free variant with a literal")
+        if 'write!(output, " {:?}", modifier.node)' not in normws(fn_body(fm, "format_type_modifiers")) or \
+           'write!(output, "{:?} ", modifier.node)' not in normws(fn_body(fm, "format_type_modifiers")):
+            raise ExtractError("format_type_modifiers no longer prints the Debug spelling with one space")
+        out.append("/-- `Debug` of a modifier = what `format_type_modifiers` prints -/\ndef modSpell : TypeMod → String\n" +
+                   "".join(f"  | .{v} => {lean_str(spell[v])}\n" for v in mods) + "\n")
+        # keywords of the lexer
+        kw_body = fn_body(lx, "any_word")
+        _, arms_text, _ = first_match(kw_body, r'as_str\(\)')
+        kws = []
+        for pats, guard, result in match_arms(arms_text):
+            rm = re.fullmatch(r'Token::([A-Za-z]+)', result)
+            if rm and guard is None:
+                for p in pats:
+                    sm = re.fullmatch(r'"([A-Za-z_]+)"', p)
+                    if sm:
+                        kws.append((sm.group(1), rm.group(1)))
+        if len(kws) < 30:
+            raise ExtractError("any_word keyword table not found")
+        out.append("/-- `any_word`: spelling ↦ keyword token (every other word is an identifier or a reserved word) -/\n"
+                   "def keywords : List (String × Punct) := [\n" +
+                   ",\n".join(f"  ({lean_str(s)}, .{t})" for s, t in kws) + "]\n\n")
+        # modifiers before / after a type name
+        def mod_arms(fname):
+            body = fn_body(ty, fname)
+            _, arms_text, _ = first_match(body, r'^input$')
+            kw, ids, skips = [], [], []
+            for pats, guard, result in match_arms(arms_text):
+                for p in pats:
+                    km = re.fullmatch(r'\[LexToken\(Token::([A-Za-z]+), (?:loc|_)\), rest @ \.\.\]', p)
+                    if km and guard is None:
+                        rm = re.fullmatch(r'\{?\s*\(TypeModifier::([A-Za-z]+), \*loc, rest\)\s*\}?', result)
+                        if rm:
+                            kw.append((km.group(1), rm.group(1)))
+                        elif "input = rest; continue;" in result:
+                            skips.append(km.group(1))
+                        else:
+                            raise ExtractError(f"{fname}: arm {p!r} => {result!r}")
+                    elif p.startswith("[LexToken(Token::Id(id), loc)"):
+                        _, inner, _ = first_match(result, r'as_str\(\)')
+                        for ipats, ig, ires in match_arms(inner):
+                            for ip in ipats:
+                                sm = re.fullmatch(r'"([a-z_]+)"', ip)
+                                rm = re.fullmatch(r'TypeModifier::([A-Za-z]+)', ires)
+                                if sm and rm:
+                                    ids.append((sm.group(1), rm.group(1)))
+                                elif ip == '_' and ires == 'break':
+                                    pass
+                                else:
+                                    raise ExtractError(f"{fname}: identifier arm {ip!r} => {ires!r}")
+                    elif p == '_':
+                        if result != 'break':
+                            raise ExtractError(f"{fname}: default arm is not break")
+                    else:
+                        raise ExtractError(f"{fname}: pattern {p!r}")
+            return kw, ids, skips
+        bkw, bids, bskips = mod_arms("parse_type_modifiers_before")
+        akw, aids, askips = mod_arms("parse_type_modifiers_after")
+        if aids or askips:
+            raise ExtractError("parse_type_modifiers_after has identifier / skip arms now")
+        out.append("/-- `parse_type_modifiers_before`: keyword arms, identifier arms, skipped keywords (`inline`) -/\n"
+                   "def modBeforeKw : List (Punct × TypeMod) := " + T.lean_list(f"(.{k}, .{m})" for k, m in bkw) + "\n"
+                   "def modBeforeId : List (String × TypeMod) := " + T.lean_list(f"({lean_str(s)}, .{m})" for s, m in bids) + "\n"
+                   "def modBeforeSkips : List Punct := " + T.lean_list(f".{k}" for k in bskips) + "\n"
+                   "/-- `parse_type_modifiers_after` -/\n"
+                   "def modAfterKw : List (Punct × TypeMod) := " + T.lean_list(f"(.{k}, .{m})" for k, m in akw) + "\n\n")
+        # format_type prints every modifier before the layout
+        ft = normws(fn_body(fm, "format_type"))
+        if "format_type_modifiers(&ty.modifiers, false, output)?; format_type_layout(&ty.layout, output, context)?;" not in ft:
+            raise ExtractError("format_type no longer prints modifiers (space after) then the layout")
+        # cast / sizeof arms of format_subexpression
+        body = fn_body(fm, "format_subexpression")
+        cm = re.search(r"ast::Expression::Cast\(ty, expr\) => \{\s*output\.push\('\('\);\s*format_type_id\(ty, output, context\)\?;\s*"
+                       r"output\.push\('\)'\);\s*format_subexpression\(expr,\s*prec,\s*OperatorSide::([A-Za-z]+)", body)
+        if not cm:
+            raise ExtractError("format_subexpression: Cast arm changed shape")
+        out.append(f"/-- operand of a cast: `format_subexpression(expr, prec, side)` after `(type)` -/\ndef castOperandSide : Side := .{cm.group(1)}\n")
+        sm = re.search(r'ast::Expression::SizeOf\(expr\) => \{\s*output\.push_str\("sizeof\("\);\s*format_expression_or_type\(expr, output, context\)\?;\s*'
+                       r"output\.push\('\)'\);", body)
+        if not sm:
+            raise ExtractError("format_subexpression: SizeOf arm changed shape")
+        ca = re.search(r'format_subexpression\(object,\s*2,\s*OperatorSide::Left,\s*output,\s*context\)\?;\s*format_template_type_args\(template_args, output, context\)\?;\s*'
+                       r"output\.push\('\('\);", body)
+        if not ca:
+            raise ExtractError("format_subexpression: Call arm no longer prints object, template arguments, `(`")
+        eot = normws(fn_body(fm, "format_expression_or_type"))
+        if "ast::ExpressionOrType::Expression(expr) | ast::ExpressionOrType::Either(expr, _) => { format_expression(expr, output, context) }" not in eot or \
+           "ast::ExpressionOrType::Type(ty) => format_type_id(ty, output, context)" not in eot:
+            raise ExtractError("format_expression_or_type changed shape")
+        out.append("/-- template arguments and the operand of sizeof are printed with `format_expression` (never parenthesised) or `format_type_id` -/\n"
+                   "def eotExprPrec : Nat := topPrec\ndef eotExprSide : Side := topSide\n\n")
+        # expr_p2's order of alternatives
+        ex = T.src("parser/src/parser/expressions.rs")
+        p2 = normws(fn_body(ex, "expr_p2"))
+        if not p2.endswith("expr_p2_unaryop(input, st) .select(expr_p2_cast(input, st)) .select(expr_p2_sizeof(input, st)) .select(expr_p1(input, st))"):
+            raise ExtractError("expr_p2: order of alternatives changed")
+        p1r = normws(fn_body(fn_body(ex, "expr_p1"), "expr_p1_right"))
+        if p1r != "expr_p1_increment(input) .select(expr_p1_decrement(input)) .select(expr_p1_call(input, st)) .select(expr_p1_member(input)) .select(expr_p1_subscript(input, st))":
+            raise ExtractError("expr_p1_right: alternatives changed")
+        eo = normws(fn_body(ex, "parse_expression_or_type_with_or_without_symbols"))
+        if "parse_expression_resolve_symbols(input, Terminator::TypeList)" not in eo:
+            raise ExtractError("parse_expression_or_type: the expression is no longer read under Terminator::TypeList")
+        out.append("/-- the expression alternative of an expression-or-type position is read under this terminator -/\n"
+                   "def eotTerminator : Terminator := .TypeList\n\n")
+        # fingerprints
+        fps = []
+        cache = {}
+        for rel, path in FINGERPRINTED:
+            if rel not in cache:
+                cache[rel] = T.src(rel)
+            text = cache[rel]
+            for name in path:
+                text = fn_body(text, name)
+            fps.append((rel.split("/")[-1] + "::" + "::".join(path), sha(normws(text))))
+        out.append("/-- sha256 (first 16 hex digits) of the whitespace-normalised, comment-free body of every hand-modelled function -/\n"
+                   "def fingerprints : List (String × String) := [\n" +
+                   ",\n".join(f"  ({lean_str(n)}, {lean_str(h)})" for n, h in fps) + "]\n")
+        out.append("\nend RsslVerif.Gen.SyntaxTables\n")
+        return "".join(out)
